@@ -357,14 +357,56 @@ def run_alignfn(ctx) -> RuleResult:
     if len(shape_tests) != 1:
         raise AnalysisError("align_shape: rebuild guard not recognised")
     test = shape_tests[0]
-    ok = isinstance(test.ops[0], (ast.NotEq, ast.Eq)) \
-        and isinstance(test.left, ast.Attribute) and test.left.attr == "shape" \
-        and isinstance(test.comparators[0], ast.Attribute) and test.comparators[0].attr == "shape"
+    def _is_shape(node):
+        if isinstance(node, ast.Attribute) and node.attr == "shape":
+            return True
+        if isinstance(node, ast.Call) and "broadcast_shapes" in U(node.func):
+            return True
+        if isinstance(node, ast.Name):  # a local holding the common shape
+            values = [n.value for n in ast.walk(func) if isinstance(n, ast.Assign) and len(n.targets) == 1
+                      and isinstance(n.targets[0], ast.Name) and n.targets[0].id == node.id]
+            return bool(values) and all(_is_shape(v) for v in values)
+        return False
+
+    ok = isinstance(test.ops[0], (ast.NotEq, ast.Eq)) and _is_shape(test.left) and _is_shape(test.comparators[0]) \
+        and any(isinstance(x, ast.Attribute) and x.attr == "shape" for x in (test.left, test.comparators[0]))
     result.ob("align_shape broadcasts every operand whose shape differs from the common shape", ok, module.loc(test), U(test))
     if not ok:
         result.add(Finding("R-ALIGNFN", module, "align_shape", test,
                            f"the rebuild guard is '{U(test)}', not a comparison of '<operand>.shape' with '<common>.shape': an "
                            f"operand of the common rank but with a length-1 axis is not broadcast", construct="align_shape: guard"))
+    # the rebuilt coefficients are numpy broadcasts of the operand's coefficients
+    n_bc = 0
+    seen_bc = set()
+    for path in ctx.paths_auto(module, func):
+        for step in path:
+            for raw in step_exprs(step):
+                for call in calls_in(raw):
+                    if not (isinstance(call.func, ast.Attribute) and call.func.attr == "from_attributes") or id(call) in seen_bc:
+                        continue
+                    coefs = kwarg(call, "coefficients") or (call.args[1] if len(call.args) > 1 else None)
+                    if coefs is None:
+                        continue
+                    seen_bc.add(id(call))
+                    expanded = step.expand(coefs)
+                    elts = _element_exprs(expanded, step, coefs)
+                    if not elts:
+                        raise AnalysisError(f"align_shape: how the coefficients are rebuilt was not recognised: {_txt(expanded)[:80]}")
+                    for elt in elts:
+                        verdict, why = _broadcast_form(ctx, module, elt)
+                        if verdict is None:
+                            raise AnalysisError(f"align_shape: coefficient image {_txt(elt)[:80]} is not a recognised broadcast idiom")
+                        n_bc += 1
+                        result.ob("align_shape: coefficients are broadcast (numpy rules) to the common shape", verdict,
+                                  module.loc(step.orig), _txt(elt)[:100])
+                        if not verdict:
+                            result.add(Finding(
+                                "R-ALIGNFN", module, "align_shape", call,
+                                f"the coefficients are brought to the common shape with {why}, which repeats/refills the "
+                                f"flattened data instead of broadcasting: right shape, wrong elements whenever a "
+                                f"non-leading length-1 axis is stretched", construct="align_shape: broadcast"))
+    if n_bc == 0:
+        raise AnalysisError("align_shape: no rebuilt coefficients found")
     # align_polynomials = align_exponents(*align_shape(*polys))
     func = ctx.repo.function(modname, "align_polynomials")
     for path in ctx.paths(module, func):
@@ -378,6 +420,49 @@ def run_alignfn(ctx) -> RuleResult:
                                f"align_polynomials returns {text[:80]}"))
     result.floor = 10
     return result
+
+
+def _element_exprs(expanded, step, raw):
+    """Element expression(s) of a coefficient collection: comprehension element, literal elements, or the
+    values appended to a local accumulate list."""
+    node = expanded
+    while isinstance(node, ast.Call) and isinstance(node.func, ast.Name) and node.func.id in ("tuple", "list") and node.args:
+        node = node.args[0]
+    if isinstance(node, (ast.GeneratorExp, ast.ListComp)):
+        return [node.elt]
+    if isinstance(node, (ast.List, ast.Tuple)) and node.elts:
+        return list(node.elts)
+    if isinstance(node, (ast.List, ast.Tuple)) and isinstance(raw, ast.Name):
+        out = []
+        for target, call in step.muts.get(raw.id, ()):
+            if isinstance(target, ast.Attribute) and target.attr == "append" and isinstance(call, ast.Call) and call.args:
+                out.append(call.args[0])
+        return out
+    return []
+
+
+_NOT_BROADCAST = {"resize", "tile", "reshape", "repeat"}
+
+
+def _broadcast_form(ctx, module, elt):
+    text = _txt(elt)
+    if isinstance(elt, ast.BinOp) and isinstance(elt.op, (ast.Mult, ast.Add)):
+        want = "numpy.ones(" if isinstance(elt.op, ast.Mult) else "numpy.zeros("
+        for side in (elt.left, elt.right):
+            st = _txt(side)
+            if want in st and "broadcast_shapes" in st:
+                return True, ""
+        return None, ""
+    if isinstance(elt, ast.Call) and not is_S(elt):
+        name = ctx.dotted(module, elt.func) or ""
+        short = name.split(".")[-1] if name else (elt.func.attr if isinstance(elt.func, ast.Attribute) else "")
+        if name in ("numpy.broadcast_to",) and len(elt.args) + len(elt.keywords) >= 2:
+            return True, ""
+        if name == "numpy.full" and elt.args:
+            return True, ""
+        if short in _NOT_BROADCAST and (name.startswith("numpy.") or not name):
+            return False, f"'{text[:60]}'"
+    return None, ""
 
 
 def _rebuild_loop(loop: ast.For) -> bool:
